@@ -11,6 +11,7 @@ import (
 	"sort"
 	"strings"
 	"testing"
+	"time"
 
 	"github.com/tinode/chat/server/store/types"
 	kit "github.com/tinode/chat/server/zzverifkit"
@@ -65,8 +66,11 @@ func c14Gen(rt *rapid.T) wProg {
 			op = wOp{K: "del", S: s, T: "g0", A: "sub", U: gInt(rt, 1, 2, "tgt")}
 		case x < 88:
 			op = wOp{K: "set", S: s, T: topicFor(s), A: "mode", B: gPick(rt, []string{"JRWPS", "N", "JRWP"}, "want")}
-		case x < 94:
+		case x < 91:
 			op = wOp{K: "disc", S: s}
+		case x < 94:
+			// account deletion (own account, or anybody's when the session is root), soft or hard
+			op = wOp{K: "del", S: s, A: "user", U: gInt(rt, 0, 2, "victim"), F: gPct(rt, 50)}
 		case x < 96:
 			// account suspension / reinstatement (acted on when the session is user 0 at root level)
 			op = wOp{K: "acc", S: s, U: gInt(rt, 1, 2, "tgt"), A: gPick(rt, []string{"susp", "ok"}, "status")}
@@ -92,6 +96,11 @@ func c14Gen(rt *rapid.T) wProg {
 			p.Ops = append(p.Ops, wOp{K: "reconn", S: s})
 		case x < 86:
 			p.Ops = append(p.Ops, wOp{K: "tick", N: gPick(rt, []int{100, 3990, 4100, 5500}, "ms")})
+		case x < 89:
+			// the store fails while the owner deletes the loaded topic; then sessions go away
+			s := gInt(rt, 1, len(p.Sess)-1, "goes")
+			p.Ops = append(p.Ops, wOp{K: "fault", N: gInt(rt, 1, 2, "k"), A: gPick(rt, []string{"TopicDelete", ""}, "m")}, wOp{K: "del", S: 0, T: "g0", A: "topic", F: gPct(rt, 50)},
+				wOp{K: "sub", S: s, T: "g0"}, wOp{K: "disc", S: s}, wOp{K: "tick", N: 5500})
 		case x < 92:
 			// slow consumer: pause one attached session, flood the topic from another one
 			s := gInt(rt, 1, len(p.Sess)-1, "slow")
@@ -129,7 +138,19 @@ func (o *c14Obs) Before(w *wWorld, op *wOp) {
 	}
 }
 
-func (o *c14Obs) Final(w *wWorld) *kit.Viol { return o.consistency(w, "end of program") }
+func (o *c14Obs) Final(w *wWorld) *kit.Viol {
+	if v := o.consistency(w, "end of program"); v != nil {
+		return v
+	}
+	// nothing may stay locked: after the idle period a loaded topic is neither paused nor half-deleted
+	w.tick(6 * time.Second)
+	for name, lt := range w.liveTopics() {
+		if lt.Status&(topicStatusPaused|topicStatusMarkedDeleted) != 0 {
+			return kit.V("topic-locked-forever", "topic %s is still loaded and paused/marked deleted (status %#x) 6 s after the end of the program: every request to it is answered 503", name, lt.Status)
+		}
+	}
+	return o.consistency(w, "end of program + idle period")
+}
 
 func (o *c14Obs) After(w *wWorld, st *wStep) *kit.Viol {
 	steps := []*wStep{st}
